@@ -319,6 +319,8 @@ def explore(ctx, res):
     tier = "thorough" if ctx["deep"] else ctx["tier"]
     deep = tier == "thorough"
     count, shards = (8, 1) if tier == "quick" else (40, 12)
+    if ctx["deep"] and ctx["tier"] == "quick":
+        count, shards = 16, 6   # something upstream broke: search harder than quick, still bounded
     h = os.path.join(core.BUILD, "verifh")
     dist = {"by_codec": {}, "by_scheme": {}, "by_nodes": {}, "by_status": {}, "optional_absent": {}, "equality_helper": {},
             "dec_by_outcome": {}, "dec_by_mutation": {}}
